@@ -96,6 +96,8 @@ def _case(draw, kind):
                 # y' = y written as `return y`: the function hands back the very array it was given (or, every other call, a view of
                 # it) - whatever buffer the integrator assembled the stage argument in
                 returns_argument=draw(st.sampled_from([False] * 7 + [True])),
+                # any right-hand side, writing into ONE preallocated array that it hands back on every call
+                reuse_buffer=draw(st.sampled_from([False] * 5 + [True])),
                 mid_fault=draw(st.sampled_from([None, None, None, 1, 2, 4, 7, 12])),
                 # between two judged calls the public step() method is called directly (a trial step with another size from the
                 # reached point, or a step somewhere else): it leaves its own slopes in the integrator's buffers
@@ -152,6 +154,7 @@ def check(case):
     fault_at = [None]
     fault_exc = [None]
     buf = {}
+    rbuf = {}
     tampered = []
 
     class Boom(Exception):
@@ -171,6 +174,11 @@ def check(case):
             if case.get("returns_argument") and not case.get("persistent_out") and kw.get("k", kbox[0]) == 1.0 and isinstance(y, np.ndarray):
                 return y if evals[0] % 2 else y[...]
             out = f0(t, y) * np.asarray(y).dtype.type(kw.get("k", kbox[0]))
+            if case.get("reuse_buffer") and not case.get("persistent_out") and isinstance(y, np.ndarray) and np.asarray(y).dtype == np.dtype(dt):
+                # (calls made by the library only: the harness' reference evaluations use wider types and get fresh arrays)
+                slot = rbuf.setdefault((out.shape, out.dtype.str), np.empty_like(out))
+                slot[...] = out
+                return slot
             if not case.get("persistent_out"):
                 return out
             # the user's function hands out ONE buffer it owns (preallocated output): what it returned last time must still
@@ -199,7 +207,7 @@ def check(case):
     shape = f.shape
     n = f.n
     cls = M.get(name)
-    labels = ["method:" + name, "dtype:" + dtname, "h<0" if case["h"] < 0 else "h>0", "family:" + M.family(cls)] + (["rhs_returns_its_argument"] if case.get("returns_argument") and not case.get("persistent_out") else [])
+    labels = ["method:" + name, "dtype:" + dtname, "h<0" if case["h"] < 0 else "h>0", "family:" + M.family(cls)] + (["rhs_returns_its_argument"] if case.get("returns_argument") and not case.get("persistent_out") else []) + (["rhs_hands_back_one_preallocated_array"] if case.get("reuse_buffer") and not case.get("persistent_out") else [])
     viols = []
     metrics = {}
     sig = "{}:{}".format(M.family(cls), dtname)
